@@ -150,12 +150,23 @@ func calleeName(c *ssa.CallCommon) string {
 	}
 	// dynamic: name of the field/variable holding the func
 	switch v := c.Value.(type) {
+	case *ssa.FreeVar:
+		return v.Name()
+	case *ssa.Parameter:
+		return v.Name()
 	case *ssa.UnOp:
 		if fa, ok := v.X.(*ssa.FieldAddr); ok {
 			return fieldName(fa.X.Type().Underlying().(*types.Pointer).Elem(), fa.Field)
 		}
+		if fv, ok := v.X.(*ssa.FreeVar); ok {
+			return fv.Name()
+		}
 	case *ssa.MakeClosure:
 		return v.Fn.Name()
+	case *ssa.Field:
+		return fieldName(v.X.Type(), v.Field)
+	case *ssa.Extract:
+		return "extract"
 	}
 	return c.Value.Name()
 }
@@ -167,7 +178,7 @@ func (fr *Frame) siteContract() *Contract {
 	if fr.contract != nil {
 		return fr.contract
 	}
-	if fr.top.contract != nil {
+	if fr.top.contract != nil && fr.vc.S.Contracts[funcKey(fr.fn)] == nil {
 		for p := fr.fn.Parent(); p != nil; p = p.Parent() {
 			if p == fr.top.fn {
 				return fr.top.contract
@@ -377,4 +388,76 @@ func (fr *Frame) siteOrdinals() map[interface{}]int {
 		fr.siteOrd[s.key] = cnt[s.name]
 	}
 	return fr.siteOrd
+}
+
+// sitePseudo runs site clauses attached to non-call program points that are
+// addressed like calls: "select" (a select statement; result0 = chosen case
+// index, -1 = default) and "recv" (a blocking channel receive; arg0 = channel).
+func (fr *Frame) sitePseudo(key interface{}, name string, pos token.Pos, args []Val, results []Val, before bool) {
+	ct := fr.siteContract()
+	if ct == nil || len(ct.Sites) == 0 {
+		return
+	}
+	ord := fr.pseudoOrdinals()[key]
+	for i := range ct.Sites {
+		sc := &ct.Sites[i]
+		if sc.Kind != "call" || sc.Target != name || (sc.Ord != 0 && sc.Ord != ord) {
+			continue
+		}
+		if (sc.When == "before") != before {
+			continue
+		}
+		fr.siteMatched(sc)
+		env := fr.envHere(fmt.Sprintf("site %s#%d of %s", name, ord, funcKey(fr.fn)))
+		for j, a := range args {
+			env.vars[fmt.Sprintf("arg%d", j)] = a
+		}
+		for j, r := range results {
+			env.vars[fmt.Sprintf("result%d", j)] = r
+			if j == 0 {
+				env.vars["result"] = r
+			}
+		}
+		fr.runSite(sc, env, pos, fmt.Sprintf("%s#%d", name, ord))
+	}
+}
+
+func (fr *Frame) pseudoOrdinals() map[interface{}]int {
+	if fr.pseudoOrd != nil {
+		return fr.pseudoOrd
+	}
+	type site struct {
+		key  interface{}
+		name string
+		pos  token.Pos
+		seq  int
+	}
+	var sites []site
+	seq := 0
+	for _, b := range fr.fn.Blocks {
+		for _, in := range b.Instrs {
+			seq++
+			switch x := in.(type) {
+			case *ssa.Select:
+				sites = append(sites, site{x, "select", x.Pos(), seq})
+			case *ssa.UnOp:
+				if x.Op == token.ARROW {
+					sites = append(sites, site{x, "recv", x.Pos(), seq})
+				}
+			}
+		}
+	}
+	sort.SliceStable(sites, func(i, j int) bool {
+		if sites[i].pos != sites[j].pos {
+			return sites[i].pos < sites[j].pos
+		}
+		return sites[i].seq < sites[j].seq
+	})
+	fr.pseudoOrd = map[interface{}]int{}
+	cnt := map[string]int{}
+	for _, s := range sites {
+		cnt[s.name]++
+		fr.pseudoOrd[s.key] = cnt[s.name]
+	}
+	return fr.pseudoOrd
 }
